@@ -144,6 +144,10 @@ func dischargeOne(o *Obl, file string, quickMs, fullMs int, stats *SolveStats) {
 			fullMs = 6000
 		}
 	}
+	if o.Cover && fullMs > 8000 {
+		// vacuity guards only have to fail to find a contradiction: no need for the long budget
+		fullMs = 8000
+	}
 	// stage 1: the newest z3 alone, short budget
 	r := runSolver(context.Background(), solvers[0], file, quickMs)
 	var all []solveResult
